@@ -211,8 +211,44 @@ func runC04(c *vlib.Ctx) {
 		when     string
 		second   int64 // crash the recovery start-up at this write (0 = no second crash)
 		emptyMem bool  // the death also left the store's next memtable file created but not yet sized (zero length)
+		txn      bool  // n counts writing engine transactions inside storage/badger (instrumented binary), not write units
 	}
 	var jobs []job
+	// Kill points between the engine transactions of one store operation: the workload runs in the scheduler-instrumented
+	// binary (storage/badger carries a hook before every Update / Flush / Commit) and dies before its n-th writing
+	// transaction. On a tree where every versioned Put / Delete is one transaction these states coincide with the
+	// write-unit kill points; a store operation split into several transactions adds states between them.
+	if sched := filepath.Join(os.Getenv("VERIF_DIR"), ".build", "vsched"); fileExists(sched) {
+		vlib.WorkerExe["wlruntxn"] = sched
+		txnWorkloads := []string{"kv"}
+		if c.Thorough() {
+			txnWorkloads = []string{"kv", "repo", "neuronjson", "annotation"}
+		}
+		for wi, ref := range refs {
+			use := false
+			for _, n := range txnWorkloads {
+				use = use || names[wi] == n
+			}
+			if ref == nil || !use {
+				continue
+			}
+			d, _ := mkTemp("c04txn")
+			res := vlib.RunWorker("wlruntxn", []string{d, names[wi], "0", "9999", "clean", "nosnap"}, nil)
+			rmAll(d)
+			var total int64
+			fmt.Sscanf(res.LastLineWith("TXNS "), "TXNS %d", &total)
+			if total == 0 {
+				c.Cap("engine-transaction kill points of workload " + names[wi] + " not enumerated: the instrumented worker reported no transactions (" + tail(res.Stderr, 200) + ")")
+				continue
+			}
+			c.Add("engine_transaction_kill_points", total)
+			for n := int64(1); n <= total; n++ {
+				jobs = append(jobs, job{wi: wi, n: n, when: "before", txn: true})
+			}
+		}
+	} else {
+		c.Cap("engine-transaction kill points skipped: the scheduler-instrumented binary is missing")
+	}
 	for wi, ref := range refs {
 		if ref == nil {
 			continue
@@ -221,17 +257,17 @@ func runC04(c *vlib.Ctx) {
 			if names[wi] == "ids" && !c.Thorough() && n > ref.bootWr+40 && n%3 != 0 {
 				continue
 			}
-			jobs = append(jobs, job{wi, n, "before", 0, false})
+			jobs = append(jobs, job{wi, n, "before", 0, false, false})
 			if c.Thorough() || n%4 == 0 {
-				jobs = append(jobs, job{wi, n, "after", 0, false})
+				jobs = append(jobs, job{wi, n, "after", 0, false, false})
 			}
 			if c.Thorough() || n%9 == 0 {
 				for m := int64(1); m <= 8; m++ {
-					jobs = append(jobs, job{wi, n, "before", m, false})
+					jobs = append(jobs, job{wi, n, "before", m, false, false})
 				}
 			}
 			if n%7 == 0 || c.Thorough() && n%2 == 0 {
-				jobs = append(jobs, job{wi, n, "before", 0, true})
+				jobs = append(jobs, job{wi, n, "before", 0, true, false})
 			}
 		}
 	}
@@ -245,7 +281,12 @@ func runC04(c *vlib.Ctx) {
 		}
 		defer rmAll(dir)
 		env := []string{fmt.Sprintf("VERIF_CRASH_AT=%d", j.n), "VERIF_CRASH_WHEN=" + j.when}
-		res := vlib.RunWorker("wlrun", []string{dir, name, "0", "9999", "abrupt", "nosnap"}, nil, env...)
+		worker := "wlrun"
+		if j.txn {
+			env = []string{fmt.Sprintf("VERIF_CRASH_AT_TXN=%d", j.n)}
+			worker = "wlruntxn"
+		}
+		res := vlib.RunWorker(worker, []string{dir, name, "0", "9999", "abrupt", "nosnap"}, nil, env...)
 		acked := 0
 		for _, l := range res.Lines {
 			if strings.HasPrefix(l, "ACK ") {
@@ -266,6 +307,10 @@ func runC04(c *vlib.Ctx) {
 		}
 		rep := map[string]interface{}{"workload": name, "crash_at_write": j.n, "when": j.when, "ops_acknowledged": acked, "op_in_flight": inflight, "second_crash_at_recovery_write": j.second}
 		cls := fmt.Sprintf("%s:during-%s", name, inflight)
+		if j.txn {
+			cls += ":before-engine-transaction"
+			rep["crash_at_engine_transaction"] = j.n
+		}
 		if j.second > 0 {
 			// first recovery attempt is itself killed at its m-th write
 			env2 := []string{fmt.Sprintf("VERIF_CRASH_AT=%d", j.second), "VERIF_CRASH_WHEN=before"}
@@ -461,4 +506,9 @@ func c04InjectEmptyMemtable(dir string) {
 		os.WriteFile(filepath.Join(p, fmt.Sprintf("%05d.mem", next)), nil, 0644)
 		return nil
 	})
+}
+
+func fileExists(p string) bool {
+	_, err := os.Stat(p)
+	return err == nil
 }
